@@ -74,6 +74,22 @@ pub struct WildArgs {
     pub rest: Vec<String>,
 }
 
+/// wildcard remainders of a non-String element type
+#[derive(Clone, Debug, PartialEq, Serialize, Deserialize, JsonSchema)]
+pub struct ColorWildArgs {
+    pub rest: Vec<Color>,
+}
+#[derive(Clone, Debug, PartialEq, Serialize, Deserialize, JsonSchema)]
+pub struct UuidWildArgs {
+    pub rest: Vec<uuid::Uuid>,
+}
+
+/// page selector of the paginated echo endpoint (never issued: the endpoint returns no token)
+#[derive(Clone, Debug, PartialEq, Serialize, Deserialize)]
+pub struct EchoPageSel {
+    pub last: u32,
+}
+
 #[derive(Clone, Debug, PartialEq, Serialize, Deserialize, JsonSchema)]
 pub struct QueryArgs {
     pub tag: String,
@@ -225,6 +241,31 @@ async fn ve_wild(rq: RequestContext<EchoCtx>, p: Path<WildArgs>, q: Query<TagQue
     }))
 }
 
+#[endpoint { method = GET, path = "/e/cwild/{rest:.*}", unpublished = true }]
+async fn ve_cwild(rq: RequestContext<EchoCtx>, p: Path<ColorWildArgs>, q: Query<TagQuery>) -> Result<HttpResponseOk<EchoOut>, HttpError> {
+    let ctx = enter(&rq);
+    Ok(HttpResponseOk(EchoOut { ctx, path: serde_json::to_value(p.into_inner()).unwrap(), query: serde_json::to_value(q.into_inner()).unwrap(), body: Value::Null }))
+}
+
+#[endpoint { method = GET, path = "/e/uwild/{rest:.*}", unpublished = true }]
+async fn ve_uwild(rq: RequestContext<EchoCtx>, p: Path<UuidWildArgs>, q: Query<TagQuery>) -> Result<HttpResponseOk<EchoOut>, HttpError> {
+    let ctx = enter(&rq);
+    Ok(HttpResponseOk(EchoOut { ctx, path: serde_json::to_value(p.into_inner()).unwrap(), query: serde_json::to_value(q.into_inner()).unwrap(), body: Value::Null }))
+}
+
+/// the first-page parameters of a paginated endpoint are decoded by a different code path than `Query<T>`
+#[endpoint { method = GET, path = "/e/page" }]
+async fn ve_page(rq: RequestContext<EchoCtx>, q: Query<dropshot::PaginationParams<QueryArgs, EchoPageSel>>) -> Result<HttpResponseOk<EchoOut>, HttpError> {
+    let ctx = enter(&rq);
+    let p = q.into_inner();
+    let limit = rq.page_limit(&p)?.get();
+    let scan = match &p.page {
+        dropshot::WhichPage::First(s) => serde_json::to_value(s).unwrap(),
+        dropshot::WhichPage::Next(_) => json!("next-page"),
+    };
+    Ok(HttpResponseOk(EchoOut { ctx, path: json!({"limit": limit}), query: scan, body: Value::Null }))
+}
+
 #[endpoint { method = GET, path = "/e/query" }]
 async fn ve_query(rq: RequestContext<EchoCtx>, q: Query<QueryArgs>) -> Result<HttpResponseOk<EchoOut>, HttpError> {
     let ctx = enter(&rq);
@@ -286,7 +327,19 @@ async fn ve_multipart(rq: RequestContext<EchoCtx>, q: Query<TagQuery>, mut b: Mu
                 }
             }
             Ok(None) => break,
-            Err(e) => return Err(HttpError::for_bad_request(None, format!("multipart: {}", e))),
+            Err(e) => {
+                return Err(HttpError::for_bad_request(
+                    None,
+                    format!(
+                        "multipart: {} (after {} complete parts of {} bytes in total; content-length {:?}, content-type {:?})",
+                        e,
+                        parts.len(),
+                        parts.iter().map(|p| p["data"]["len"].as_u64().unwrap_or(0)).sum::<u64>(),
+                        rq.request.headers().get("content-length"),
+                        rq.request.headers().get("content-type")
+                    ),
+                ))
+            }
         }
     }
     Ok(HttpResponseOk(EchoOut { ctx, path: Value::Null, query: serde_json::to_value(q.into_inner()).unwrap(), body: json!(parts) }))
@@ -327,6 +380,9 @@ pub fn echo_api() -> ApiDescription<EchoCtx> {
     api.register(ve_path).unwrap();
     api.register(ve_wild).unwrap();
     api.register(ve_query).unwrap();
+    api.register(ve_cwild).unwrap();
+    api.register(ve_uwild).unwrap();
+    api.register(ve_page).unwrap();
     api.register(ve_json).unwrap();
     api.register(ve_all).unwrap();
     api.register(ve_form).unwrap();
